@@ -203,7 +203,14 @@ func JsonContainerReader(container map[string]interface{}) node.Node {
 
 func jsonKeyMatches(keyFields []meta.Leafable, candidate map[string]interface{}, key []val.Value) bool {
 	for i, field := range keyFields {
-		if fqkGetOrNil(field, candidate) != key[i].String() {
+		raw := fqkGetOrNil(field, candidate)
+		if raw == nil {
+			return false
+		}
+		// compare as values of the key leaf's type: a JSON number or boolean
+		// never equals the text of the key
+		v, err := node.NewValue(field.Type(), raw)
+		if err != nil || !val.Equal(v, key[i]) {
 			return false
 		}
 	}
